@@ -72,6 +72,11 @@ func (ss SocketState) String() string {
 	}
 }
 
+// socketReadBufferSize is the size of a socket's receive ring: a single Read
+// never returns more, so handlers that read the first flight with a buffer of
+// this size see everything the socket holds.
+const socketReadBufferSize = 4096
+
 // Socket defines a object for representing a giving underrline socket
 type Socket struct {
 	laddr net.Addr
@@ -178,7 +183,7 @@ func (state *State) NewSocket(src, dst net.Addr) *Socket {
 
 		// rbuffer: rbuf.NewFixedSizeRingBuf(65535),
 		// wbuffer: rbuf.NewFixedSizeRingBuf(65535),
-		rbuffer: rbuf.NewFixedSizeRingBuf(4096),
+		rbuffer: rbuf.NewFixedSizeRingBuf(socketReadBufferSize),
 		wbuffer: nil, /*rbuf.NewFixedSizeRingBuf(10000), */
 
 		closed: false,
